@@ -514,7 +514,27 @@ func (s *Stage) Recover() {
 				oldest = info.ModTime()
 			}
 			base := strings.TrimSuffix(path, compExt)
-			if info, err := os.Stat(base + waitExt); !os.IsNotExist(err) {
+			waitInfo, waitErr := os.Stat(base + waitExt)
+			if os.IsNotExist(waitErr) {
+				// If the previous run stopped in the middle of moving the
+				// (already logged) file into place, finish that move.  Without
+				// a .wait file the copy under the lock name is complete.
+				targetName := cmp.Name
+				if cmp.Renamed != "" {
+					targetName = cmp.Renamed
+				}
+				targetPath := filepath.Join(s.targetDir, targetName)
+				if _, err = os.Stat(targetPath + fileutil.LockExt); err == nil {
+					if err = os.Rename(targetPath+fileutil.LockExt, targetPath); err != nil {
+						s.logError("Failed to finish moving file into place:",
+							targetPath, err.Error())
+						return nil
+					}
+					s.logInfo("Finished moving file into place:", targetPath)
+				}
+			}
+			earlier := false
+			if info := waitInfo; !os.IsNotExist(waitErr) {
 				// .wait
 				s.logDebug("Found ready to finalize:", cmp.Name)
 				if hash, err := fileutil.FileMD5(base + waitExt); err == nil && hash != cmp.Hash && info != nil {
@@ -522,16 +542,29 @@ func (s *Stage) Recover() {
 					// file that is being received; the validated file is an
 					// earlier version and must not take on that identity
 					s.logInfo("Found validated earlier version:", cmp.Name, hash)
-					finalize = append(finalize, &sts.Partial{
-						Name:    cmp.Name,
-						Renamed: cmp.Renamed,
-						Size:    info.Size(),
-						Hash:    hash,
-						Source:  cmp.Source,
-					})
+					_, fullErr := os.Stat(base + fullExt)
+					_, partErr := os.Stat(base + partExt)
+					if fullErr == nil || (partErr == nil && isCompanionComplete(cmp)) {
+						// The newer version is complete as well: it supersedes
+						// the earlier one (as it would have without a restart)
+						s.logInfo("Superseded by complete newer version:", cmp.Name)
+					} else {
+						finalize = append(finalize, &sts.Partial{
+							Name:    cmp.Name,
+							Renamed: cmp.Renamed,
+							Size:    info.Size(),
+							Hash:    hash,
+							Source:  cmp.Source,
+						})
+					}
+					// ...and the newer version's own data is looked at below
+					earlier = true
 				} else {
 					finalize = append(finalize, cmp)
 				}
+			}
+			if !os.IsNotExist(waitErr) && !earlier {
+				// handled above
 			} else if _, err = os.Stat(base + fullExt); !os.IsNotExist(err) {
 				// .full
 				s.logDebug("Found ready to validate:", cmp.Name)
@@ -547,23 +580,10 @@ func (s *Stage) Recover() {
 					s.logDebug("Found already done:", cmp.Name)
 					validate = append(validate, cmp)
 				}
+			} else if earlier {
+				// the companion belongs to a newer version that has no data yet
 			} else if _, err = os.Stat(base); os.IsNotExist(err) {
-				// Not found. If the previous run stopped in the middle of
-				// moving the (already logged) file into place, finish that
-				// move before dropping the companion
-				targetName := cmp.Name
-				if cmp.Renamed != "" {
-					targetName = cmp.Renamed
-				}
-				targetPath := filepath.Join(s.targetDir, targetName)
-				if _, err = os.Stat(targetPath + fileutil.LockExt); err == nil {
-					if err = os.Rename(targetPath+fileutil.LockExt, targetPath); err != nil {
-						s.logError("Failed to finish moving file into place:",
-							targetPath, err.Error())
-						return nil
-					}
-					s.logInfo("Finished moving file into place:", targetPath)
-				}
+				// Not found
 				if err = os.Remove(path); err != nil {
 					s.logError("Failed to remove orphaned companion:",
 						path, err.Error())
